@@ -15,6 +15,7 @@ verif/pair.py is not edited; what it lacks for C19 is supplied here:
 """
 from __future__ import annotations
 
+import os
 import re
 import socket
 import ssl
@@ -26,7 +27,7 @@ from .mdibharness import FIXTURE_ONE, _load_repo
 from .pair import NullWsDiscovery
 from .tlc import MachineryError
 
-CERT_FOLDER = '/repo/tests/certificates'
+CERT_FOLDER = os.path.join(os.environ.get('VERIF_REPO', '/repo'), 'tests', 'certificates')
 IP = '127.0.0.1'
 ALT_HOST = 'localhost'          # resolves to 127.0.0.1 without any name service
 P_SHARED_PORT, C_SHARED_PORT = 10001, 10002
@@ -134,6 +135,22 @@ class TlsClient(LoopbackSoapClient):
         finally:
             net.events.append({'ev': 'connect', 'party': self.local, 'netloc': self._netloc,
                                'ctx': net.ctx_name(self._ssl_context), 'out': out})
+
+    def _sending(self):
+        if self._closed:
+            self.connect()
+        net = self.network
+        # 'at': index of the wire this request becomes in net.log
+        net.events.append({'ev': 'send', 'party': self.local, 'netloc': self._netloc,
+                           'ctx': net.ctx_name(self._ssl_context), 'out': 'ok', 'at': len(net.log)})
+
+    def _post(self, path, created_message, request_manipulator, validate):
+        self._sending()
+        return super()._post(path, created_message, request_manipulator, validate)
+
+    def get_from_url(self, url, msg=''):
+        self._sending()
+        return super().get_from_url(url, msg)
 
 
 def mk_tls_client_class(network: TlsNetwork, local: str):
